@@ -14,7 +14,9 @@ type compiler struct {
 	values    map[string][]token // symbols that represent expressions
 	labels    map[string]int     // symbols that represent addresses
 	startExpr []token
-	metadata  WarriorData
+	// the arguments of ORG and END lines that a later one has replaced
+	replacedStartExprs [][]token
+	metadata           WarriorData
 }
 
 func newCompiler(src []sourceLine, metadata WarriorData, config SimulatorConfig) (*compiler, error) {
@@ -64,6 +66,7 @@ func (c *compiler) loadSymbols() {
 					c.values[label] = line.a
 				}
 			} else if strings.ToLower(line.op) == "org" {
+				c.replacedStartExprs = append(c.replacedStartExprs, c.startExpr)
 				c.startExpr = line.a
 				// a label on the ORG line denotes the instruction that follows
 				for _, label := range line.labels {
@@ -71,6 +74,7 @@ func (c *compiler) loadSymbols() {
 				}
 			} else if strings.ToLower(line.op) == "end" {
 				if len(line.a) > 0 {
+					c.replacedStartExprs = append(c.replacedStartExprs, c.startExpr)
 					c.startExpr = line.a
 				}
 				for _, label := range line.labels {
@@ -323,6 +327,19 @@ func (c *compiler) compile() (WarriorData, error) {
 
 	if Address(len(code)) > c.config.Length {
 		return WarriorData{}, fmt.Errorf("warrior length %d exceeds maximum length %d", len(code), c.config.Length)
+	}
+
+	// an argument that a later ORG or END line has replaced is an argument all
+	// the same: it must be an expression that can be evaluated
+	for _, replaced := range c.replacedStartExprs {
+		expr, err := c.expandExpression(replaced, 0)
+		if err != nil {
+			return WarriorData{}, fmt.Errorf("invalid start expression")
+		}
+		_, err = evaluateExpression(expr)
+		if err != nil {
+			return WarriorData{}, fmt.Errorf("invalid start expression: %s", err)
+		}
 	}
 
 	startExpr, err := c.expandExpression(c.startExpr, 0)
